@@ -516,7 +516,7 @@ func c18spawnRaw(dir, self string, args ...string) (string, string, error) {
 func c18Plan(tier string, seed int64) []core.Batch {
 	n, stride, sc := 40, 24, 40
 	if tier == "thorough" {
-		n, stride, sc = 400, 1, 300
+		n, stride, sc = 1500, 1, 600
 	}
 	return []core.Batch{
 		{Name: "docs-a", TimeoutS: 1800, Args: map[string]any{"part": "docs", "n": n, "start_checks": sc}},
@@ -537,6 +537,6 @@ func init() {
 		Plan:        c18Plan,
 		Run:         c18Run,
 		Parallel:    3,
-		Floors:      map[string]map[string]int64{"quick": {"rejected_updates_checked": 100, "accepted_updates_checked": 100, "start_checks": 20}, "thorough": {"rejected_updates_checked": 1000, "accepted_updates_checked": 1000, "start_checks": 100}},
+		Floors:      map[string]map[string]int64{"quick": {"rejected_updates_checked": 100, "accepted_updates_checked": 100, "start_checks": 20}, "thorough": {"rejected_updates_checked": 5000, "accepted_updates_checked": 5000, "start_checks": 200}},
 	})
 }
